@@ -896,7 +896,12 @@ void matrix_exponential(gsl_matrix_complex* eA, const gsl_matrix_complex *A){
   B.reset(A->size1,A->size2);
   gsl_matrix_complex_memcpy(B,A);
   gsl_matrix_complex_scale(B,gsl_complex_rect(pow(2.,s*(-1.)),0));
-  s += ell(B,13);
+  unsigned int s_extra = ell(B,13);
+  if(s_extra){
+    // B must carry the final scaling 2^-s, like A2, A4 and A6 below
+    s += s_extra;
+    gsl_matrix_complex_scale(B,gsl_complex_rect(pow(2.,s_extra*(-1.)),0));
+  }
   //std::cout << "s " << s << std::endl;
   // rescale all matrices
   /*
